@@ -487,7 +487,17 @@ func (f *Frame) val(v ssa.Value) Val {
 	case *ssa.Function:
 		id := f.w.FnID(v)
 		f.vc.UseFnID(id)
-		return Val{T: IntLit(int64(id))}
+		t := IntLit(int64(id))
+		// a function literal without captured variables is a closure with no bindings
+		if v.Parent() != nil || f.w.ContractOf(v) != nil {
+			if f.closures == nil {
+				f.closures = map[string]*closureInfo{}
+			}
+			if _, ok := f.closures[t.S]; !ok {
+				f.closures[t.S] = &closureInfo{fn: v, bindings: map[*ssa.FreeVar]Val{}}
+			}
+		}
+		return Val{T: t}
 	case *ssa.Global:
 		return Val{T: f.globalRef(v)}
 	case *ssa.Builtin:
